@@ -426,6 +426,9 @@ func verifC16Scenario(line string) (res string) {
 		}
 	}()
 	kv := verifC14KVc16(line)
+	if kv["path"] == "multi" {
+		return verifC16Multi(kv)
+	}
 	isRefresh := strings.HasPrefix(line, "rf ")
 	path := kv["path"]
 	isJSON := kv["proto"] != "pb"
@@ -490,6 +493,19 @@ func verifC16Scenario(line string) (res string) {
 		}
 		sbroker = &verifC16Broker{MemoryBroker: b}
 		node.SetBroker(sbroker)
+	}
+	// cache path: the OnCacheEmpty handler populates the cache with the `mid` publications and asks for
+	// the retry (`Populated`)
+	var populate func() bool
+	popFired := 0
+	if path == "cache" {
+		node.OnCacheEmpty(func(e CacheEmptyEvent) (CacheEmptyReply, error) {
+			popFired++
+			if populate == nil || popFired > 1 {
+				return CacheEmptyReply{}, nil
+			}
+			return CacheEmptyReply{Populated: populate()}, nil
+		})
 	}
 	node.OnConnecting(func(ctx context.Context, e ConnectEvent) (ConnectReply, error) {
 		return ConnectReply{Credentials: &Credentials{UserID: "u"}}, nil
@@ -609,6 +625,14 @@ func verifC16Scenario(line string) (res string) {
 		return nil
 	}
 	var tf *protocol.FilterNode = cf
+	if path == "cache" {
+		populate = func() bool {
+			for _, p := range pMid {
+				_ = publish(p)
+			}
+			return len(pMid) > 0
+		}
+	}
 	var mapOffset uint64
 	var mapEpoch string
 
@@ -637,6 +661,9 @@ func verifC16Scenario(line string) (res string) {
 				rec = 1
 			}
 			r.out = append(r.out, fmt.Sprintf("rec=%d", rec))
+			if path == "cache" {
+				r.out = append(r.out, fmt.Sprintf("pop=%d", popFired))
+			}
 			r.section("reply", verifC16ProtoIDs(rep.Subscribe.Publications, isJSON), hist)
 			r.out = append(r.out, "c.win="+verifC16Fmt(winIDs()))
 		}
@@ -778,6 +805,125 @@ func verifC16Scenario(line string) (res string) {
 		}
 	}
 	return strings.Join(r.out, " ")
+}
+
+// verifC16Multi: several concurrent subscribers of ONE channel on the same protocol, each with its own
+// server and client filter (`sfs=` / `cfs=`, `|`-separated), many live publications; per subscriber
+// `T<k>=…`, `push<k>=[…]`, `c.push<k>=[…]`.  (The prepared-payload cache of the hub is shared by the
+// subscribers of a channel, keyed by protocol/delta/useID/filtered.)
+func verifC16Multi(kv map[string]string) string {
+	isJSON := kv["proto"] != "pb"
+	positioned := kv["pos"] == "1"
+	sfs := strings.Split(kv["sfs"], "|")
+	cfs := strings.Split(kv["cfs"], "|")
+	if len(sfs) != len(cfs) || len(sfs) == 0 {
+		return "bad-op"
+	}
+	pubs, okp := verifC16ParsePubs(kv["pubs"])
+	if !okp {
+		return "bad-op"
+	}
+	var sfN, cfN []*protocol.FilterNode
+	for i := range sfs {
+		a, ok1 := verifC16Filter(sfs[i])
+		b, ok2 := verifC16Filter(cfs[i])
+		if !ok1 || !ok2 || (a != nil && filter.Validate(a) != nil) || (b != nil && filter.Validate(b) != nil) {
+			return "bad-op invalid-filter"
+		}
+		sfN = append(sfN, a)
+		cfN = append(cfN, b)
+	}
+	const ch = "ch"
+	node, err := New(Config{LogLevel: LogLevelError, LogHandler: func(e LogEntry) {},
+		ClientChannelPositionMaxTimeLag: time.Hour, ClientChannelPositionCheckDelay: time.Hour})
+	if err != nil {
+		return "harness-error new-node " + err.Error()
+	}
+	node.OnConnecting(func(ctx context.Context, e ConnectEvent) (ConnectReply, error) {
+		return ConnectReply{Credentials: &Credentials{UserID: "u"}}, nil
+	})
+	node.OnConnect(func(c *Client) {
+		c.OnSubscribe(func(e SubscribeEvent, cb SubscribeCallback) {
+			k, _ := strconv.Atoi(string(e.Data))
+			var f *FilterNode
+			if k >= 0 && k < len(sfN) {
+				f = sfN[k]
+			}
+			cb(SubscribeReply{Options: SubscribeOptions{AllowTagsFilter: true, ServerTagsFilter: f,
+				EnableRecovery: positioned, EnablePositioning: positioned}}, nil)
+		})
+	})
+	if err := node.Run(); err != nil {
+		return "harness-error run " + err.Error()
+	}
+	defer func() { _ = node.Shutdown(context.Background()) }()
+	proto := ProtocolTypeJSON
+	if !isJSON {
+		proto = ProtocolTypeProtobuf
+	}
+	var runs []*verifC16Run
+	for k := range sfN {
+		tr := &verifC16Transport{notify: make(chan struct{}, 1), proto: proto}
+		ctx, cancel := context.WithCancel(context.Background())
+		defer cancel()
+		client, closeFn, err := NewClient(ctx, node, tr)
+		if err != nil {
+			return "harness-error new-client"
+		}
+		defer func() { _ = closeFn() }()
+		r := &verifC16Run{node: node, client: client, tr: tr, isJSON: isJSON}
+		if rep, ok := r.command(&protocol.Command{Connect: &protocol.ConnectRequest{}}); !ok || rep.Error != nil {
+			return "harness-error connect"
+		}
+		rep, ok := r.command(&protocol.Command{Subscribe: &protocol.SubscribeRequest{Channel: ch, Tf: cfN[k], Data: []byte(strconv.Itoa(k))}})
+		if !ok || rep.Error != nil {
+			return "harness-error subscribe"
+		}
+		r.doFence()
+		r.pushes()
+		runs = append(runs, r)
+	}
+	var out []string
+	for k := range runs {
+		var tb []string
+		for _, p := range pubs {
+			sm, cm := true, true
+			if sfN[k] != nil {
+				sm, _ = filter.Match(sfN[k], p.tags)
+			}
+			if cfN[k] != nil {
+				cm, _ = filter.Match(cfN[k], p.tags)
+			}
+			b := func(x bool) string {
+				if x {
+					return "1"
+				}
+				return "0"
+			}
+			tb = append(tb, b(sm)+b(cm))
+		}
+		out = append(out, fmt.Sprintf("T%d=%s", k, strings.Join(tb, ",")))
+	}
+	var all []int
+	for _, p := range pubs {
+		opts := []PublishOption{WithTags(p.tags)}
+		if positioned {
+			opts = append(opts, WithHistory(1000, time.Hour))
+		}
+		if _, err := node.Publish(ch, []byte(`{"i":`+strconv.Itoa(p.idx)+`}`), opts...); err != nil {
+			return "harness-error publish " + err.Error()
+		}
+		all = append(all, p.idx)
+	}
+	for k, r := range runs {
+		r.doFence()
+		got, unsub := r.pushes()
+		out = append(out, fmt.Sprintf("push%d=%s c.push%d=%s", k, verifC16Fmt(got), k, verifC16Fmt(all)))
+		if unsub != "" {
+			out = append(out, fmt.Sprintf("end%d=%s", k, unsub))
+		}
+	}
+	return strings.Join(out, " ")
 }
 
 func verifC14KVc16(line string) map[string]string {
